@@ -8,7 +8,7 @@ def c10_core(stride=1):
     import c10
     for t in itertools.islice(c10.core_product(), 0, None, stride):
         ci, code, exp, label = c10.build_one(t)
-        yield ci, code, ("c10core", label)
+        yield ci, code, ("c10core", label, exp)
 
 
 def c10_layouts():
@@ -22,14 +22,14 @@ def c10_layouts():
                     t = list(c10.DEFAULT)
                     t[ix["fill"]], t[ix["target"]], t[ix["kvs"]], t[ix["style"]] = fi, ti, ki, si
                     ci, code, exp, label = c10.build_one(tuple(t))
-                    yield ci, code, ("c10layout", label)
+                    yield ci, code, ("c10layout", label, exp)
 
 
 def c10_pairs():
     import c10
     for t in c10.pairs(2):
         ci, code, exp, label = c10.build_one(t)
-        yield ci, code, ("c10pairs", label)
+        yield ci, code, ("c10pairs", label, exp)
 
 
 def c13_default_layout(tier="quick"):
@@ -37,7 +37,7 @@ def c13_default_layout(tier="quick"):
     for t in c13.space(tier):
         if t[4] == 0:
             ci, code, exp, label = next(c13.build([t]))
-            yield ci, code, ("c13", label)
+            yield ci, code, ("c13", label, exp)
 
 
 def c14_short():
@@ -45,14 +45,14 @@ def c14_short():
     for t in c14.space("quick"):
         if len(t[0]) <= 1 and t[7] == 0:
             ci, code, exp, label = next(c14.build([t]))
-            yield ci, code, ("c14", label)
+            yield ci, code, ("c14", label, exp)
 
 
 def c11_short(maxlen=2):
     import c11
     for t in c11.space(maxlen):
         ci, code, exp, label = next(c11.build([t]))
-        yield ci, code, ("c11", label)
+        yield ci, code, ("c11", label, exp)
 
 
 def token_sequences(maxlen):
@@ -121,3 +121,17 @@ def invalid_utf8_files():
         for sname, mk in shapes.items():
             for st in (False, True):
                 yield gen.cfg_index(0, st), mk(b), ("invalid-utf8", bname, sname)
+
+
+def file_start_variants():
+    """What a file starts with: byte-order mark, BOM + CRLF, shebang line, inner attribute, nothing; statement on the first line or later."""
+    starts = ["", "\ufeff", "\ufeff\r\n", "#!/usr/bin/env run-cargo-script\n", "#![allow(unused)]\n", "\ufeff// é\n"]
+    bodies = ['info!("first line");\nfn f() {\n    warn!(a = 1; "second {}", 2);\n}\n',
+              'fn f() {\n\tinfo!(target: "t", "tab indented é");\n\terror!("[ref: 9] has one");\n}\n',
+              'fn f() { info!("one"); info!("two on the same line"); }']
+    for st in starts:
+        for b in bodies:
+            for crlf in (False, True):
+                text = st + (b.replace("\n", "\r\n") if crlf else b)
+                for style in (False, True):
+                    yield gen.cfg_index(0, style), text, ("file-start", st, crlf)
